@@ -102,7 +102,8 @@ Reach  == {x[1] : x \in ReachT}
 MayReqN(nf) == UNION { Range(Chain(x[1], 0, x[2], x[3])) : x \in ReachN(nf) }
 MayReq == MayReqN(TRUE)
 \* how often URL y is requested by a crawl in which nothing fails
-Expected(y) == Cardinality({x \in ReachT : y \in Range(Chain(x[1], 0, x[2], x[3]))})
+\* (a URL reached in two roles - link and embedded object - is still one item)
+Expected(y) == Cardinality({x[1] : x \in {z \in ReachT : y \in Range(Chain(z[1], 0, z[2], z[3]))}})
 
 -----------------------------------------------------------------------------
 MInit ==
